@@ -7,11 +7,12 @@ import Upd.StatusProofs
 /-!
 # Read-back of an acknowledged manifest push (C02): what `AddDesc` leaves in the index
 
+(Everything here lives in `Upd.Rb`, so that helper names cannot collide with other `Upd` proof files.)
 `Orig e' e`: entry `e'` of the new index stems from entry `e` of the old one — same media type, digest, size and
 referrer annotation, the tag kept or cleared.  Every loop of `types.Index` only keeps, untags, removes or moves
 entries, or inserts the new descriptor (`addDesc_orig`).
 -/
-namespace Upd
+namespace Upd.Rb
 open Ixd (Act descLoop)
 
 def Orig (e' e : Desc) : Prop :=
@@ -507,15 +508,14 @@ theorem find_map_repl (d : Dig) (b : String) (d' : Dig) : ∀ l : List (Dig × S
     by_cases hx : x.1 = d
     · by_cases hd : d' = d
       · subst hd; simp [hx]
-      · have : ¬ x.1 = d' := by rw [hx]; exact fun h => hd h.symm
-        have h2 : ¬ d = d' := fun h => hd h.symm
-        simp [hx, hd, this, h2, ih]
+      · have h2 : ¬ d = d' := fun h => hd h.symm
+        simp [hx, hd, h2, ih]
     · by_cases hd : d' = d
       · subst hd
-        simp only [hx, if_false, decide_false, Bool.false_or, Bool.false_eq_true, if_true]
+        simp only [hx, if_false, decide_false, Bool.false_or, if_true]
         rw [ih]; simp
       · by_cases hx' : x.1 = d'
-        · simp [hx, hd, hx']
+        · simp [hd, hx']
         · simp [hx, hd, hx', ih]
 
 theorem putBlob_blob (rp : Repo) (d : Dig) (b : String) (d' : Dig) :
@@ -1208,4 +1208,4 @@ theorem contentLen_accepted (s : State) (r ref ct qd b : String) (lk : Bool) (a 
   have hdefs : (mPut s r ref ct qd b lk).1.defs = s.defs := (frame_mPut s r ref ct qd b lk).2.2
   unfold contentLen
   rw [if_pos hb, hdefs, hf, hl]
-end Upd
+end Upd.Rb
